@@ -87,10 +87,19 @@ def linear_value(x, y, q):
         return ("outside", None, None)
     if x[i] == q:
         return ("exact", y[i], None)
+    return ("inside", i, abs(float(y[i])) + abs(float(y[i + 1])))
+
+
+def two_point_exact(x, y, i, q):
     a, b = Fraction(x[i]), Fraction(x[i + 1])
     ya, yb = Fraction(y[i]), Fraction(y[i + 1])
-    want = ya + (yb - ya) * (Fraction(q) - a) / (b - a)
-    return ("inside", want, abs(float(y[i])) + abs(float(y[i + 1])))
+    return ya + (yb - ya) * (Fraction(q) - a) / (b - a)
+
+
+def two_point_float(x, y, i, q):
+    """float evaluation of the same line: x differences are exact, the rest carries at most 4 eps*(|y_i|+|y_i+1|)"""
+    xa, ya, yb = float(x[i]), float(y[i]), float(y[i + 1])
+    return ya + (yb - ya) * ((float(q) - xa) / (float(x[i + 1]) - xa))
 
 
 def affine_tolerance(method, x, p, c):
@@ -115,6 +124,7 @@ def check_values(method, x, y, grid, got, affine=None, where=""):
     gl = [float(v) for v in got]
     ymax = max(abs(float(v)) for v in y)
     aff_tol = Fraction(affine_tolerance(method, x, *affine)) if affine is not None else None
+    aff_half = 0.5 * float(aff_tol) if affine is not None else None
     for j, q in enumerate(grid):
         g = gl[j]
         if not math.isfinite(g):
@@ -129,9 +139,12 @@ def check_values(method, x, y, grid, got, affine=None, where=""):
             kind, want, local = linear_value(x, y, q)
             if kind == "exact" and g != want:
                 raise Violation(f"{where}linear: value at the sample abscissa {q!r} is {g!r}, sample value {want!r}")
-            if kind == "inside" and abs(Fraction(g) - want) > Fraction(1e-12) * Fraction(local):
-                raise Violation(f"{where}linear: value at {q!r} (index {j}) is {g!r}, the straight line between the "
-                                f"neighbouring samples gives {float(want)!r}")
+            # cheap float screen first (its own error is < 1e-15*local); exact rationals decide everything else
+            if kind == "inside" and not abs(g - two_point_float(x, y, want, q)) <= 0.5e-12 * local:
+                exact = two_point_exact(x, y, want, q)
+                if abs(Fraction(g) - exact) > Fraction(1e-12) * Fraction(local):
+                    raise Violation(f"{where}linear: value at {q!r} (index {j}) is {g!r}, the straight line between "
+                                    f"the neighbouring samples gives {float(exact)!r}")
         else:
             i = lower_cell(x, q)
             if i is not None and x[i] == q and abs(g - float(y[i])) > 1e-9 * ymax:
@@ -139,6 +152,8 @@ def check_values(method, x, y, grid, got, affine=None, where=""):
                                 f"{y[i]!r} (tolerance {1e-9 * ymax:.3g})")
         if affine is not None and x[0] <= q <= x[-1]:
             p, c = affine
+            if abs(g - (p * float(q) + c)) <= aff_half:          # float screen: p*q + c is within 2 eps*S of exact
+                continue
             want = Fraction(p) * Fraction(q) + Fraction(c)
             if abs(Fraction(g) - want) > aff_tol:
                 raise Violation(f"{where}{method}: affine data {p!r}*x+{c!r} not reproduced at {q!r}: got {g!r}, "
@@ -255,9 +270,10 @@ def points(draw, x, profile, lo=1, hi=40, clip=False):
     kinds = POINT_KINDS[profile]
     n = draw(st.integers(lo, hi))
     out = []
+    kind_st, index_st, unit_st, two_st = st.sampled_from(kinds), st.integers(0, m - 1), fl(0.0, 1.0), fl(0.0, 2.0)
     for _ in range(n):
-        kind = draw(st.sampled_from(kinds))
-        i = draw(st.integers(0, m - 1))
+        kind = draw(kind_st)
+        i = draw(index_st)
         xi = float(x[i])
         if kind == "elem":
             v = xi
@@ -276,11 +292,11 @@ def points(draw, x, profile, lo=1, hi=40, clip=False):
             v = float(x[j]) + (float(x[j + 1]) - float(x[j])) / 2
         elif kind == "between":
             j = min(i, m - 2)
-            v = float(x[j]) + draw(fl(0.0, 1.0)) * (float(x[j + 1]) - float(x[j]))
+            v = float(x[j]) + draw(unit_st) * (float(x[j + 1]) - float(x[j]))
         elif kind == "below":
-            v = float(x[0]) - draw(fl(0.0, 2.0)) * span
+            v = float(x[0]) - draw(two_st) * span
         elif kind == "above":
-            v = float(x[-1]) + draw(fl(0.0, 2.0)) * span
+            v = float(x[-1]) + draw(two_st) * span
         elif kind == "below0":
             v = math.nextafter(float(x[0]), -math.inf)
         elif kind == "above0":
@@ -305,9 +321,10 @@ def shifted_points(draw, x):
     same_t = draw(st.booleans())
     t0 = draw(st.one_of(st.just(0.5), fl(0.1, 0.9)))
     out = [xf[0]]
+    t_st, bool_st = fl(0.1, 0.9), st.booleans()
     for i in range(1, m - 1):
-        t = t0 if same_t else draw(fl(0.1, 0.9))
-        fwd = mode == "fwd" or (mode == "mixed" and draw(st.booleans()))
+        t = t0 if same_t else draw(t_st)
+        fwd = mode == "fwd" or (mode == "mixed" and draw(bool_st))
         out.append(xf[i] + t * (xf[i + 1] - xf[i]) if fwd else xf[i] - t * (xf[i] - xf[i - 1]))
     out.append(xf[-1])
     out.sort()
@@ -715,10 +732,22 @@ def usable(cx):
 def weaver_history_case(draw, ctx):
     case = draw(base(ctx, nonconstant=True, m_lo=6))
     steps = []
-    for _ in range(draw(st.integers(1, 4))):
+    for _ in range(draw(st.integers(1, 5))):
         op = draw(st.sampled_from(["shift_y", "scale_y", "shift_x", "scale_x", "trend", "trend", "noise", "noise",
-                                   "smooth", "smooth", "interpolate", "interpolate"]))
-        if op == "shift_y":
+                                   "smooth", "smooth", "interpolate", "interpolate", "append_one_sample",
+                                   "append_one_sample", "repeat", "truncate_by_index", "truncate_by_value",
+                                   "normalize_x", "normalize_y", "restore_original"]))
+        if op == "restore_original":
+            step = dict(op=op)
+        elif op == "append_one_sample":
+            step = dict(op=op, periodic=draw(st.sampled_from([True, True, False])))
+        elif op == "repeat":
+            step = dict(op=op, arg=draw(st.sampled_from([1, 2, 2])))
+        elif op in ("truncate_by_index", "truncate_by_value"):
+            step = dict(op=op, u=draw(st.one_of(st.just(0.0), fl(0.0, 0.3))), v=draw(st.one_of(st.just(0.0), fl(0.0, 0.3))))
+        elif op in ("normalize_x", "normalize_y"):
+            step = dict(op=op, arg=draw(st.sampled_from(NORM_RANGES)))
+        elif op == "shift_y":
             step = dict(op=op, arg=draw(st.one_of(st.sampled_from([1.0, -2.5, 10.0]), fl(-100.0, 100.0))))
         elif op == "scale_y":
             step = dict(op=op, arg=draw(st.sampled_from([2.0, 0.5, -1.0, 3.0, -0.25, 10.0])))
@@ -750,6 +779,70 @@ def weaver_history_case(draw, ctx):
     return case
 
 
+NORM_RANGES = [[0.0, 1.0], [-1.0, 1.0], [10.0, 20.0], [0.0, 100.0], [-5.0, -1.0]]
+
+
+def strictly_increasing(v):
+    return all(b > a for a, b in zip(v[:-1], v[1:]))
+
+
+def apply_domain_step(w, step, limit=400):
+    """Applies shift / scale / normalise / truncate / repeat / append / restore steps when their documented
+    preconditions hold for the CURRENT series (decided on float copies, so it depends on the case only); returns
+    'done', or 'skipped' when the step would leave fewer than 5 samples, merge abscissae, divide by a zero range or
+    grow the series beyond `limit` samples."""
+    op = step["op"]
+    cx = [float(v) for v in w.get()[0]]
+    m = len(cx)
+    if op == "shift_x":
+        if not strictly_increasing([v + step["arg"] for v in cx]):
+            return "skipped"
+        w.shift_x(step["arg"])
+    elif op == "scale_x":
+        if not strictly_increasing([v * step["arg"] for v in cx]):
+            return "skipped"
+        w.scale_x(step["arg"])
+    elif op == "normalize_x":
+        lo, hi = step["arg"]
+        if not strictly_increasing([(v - cx[0]) / (cx[-1] - cx[0]) * (hi - lo) + lo for v in cx]):
+            return "skipped"
+        w.normalize_x(lo, hi)
+    elif op == "normalize_y":
+        cy = [float(v) for v in w.get()[1]]
+        if not max(cy) > min(cy):
+            return "skipped"
+        w.normalize_y(step["arg"][0], step["arg"][1])
+    elif op == "restore_original":
+        w.restore_original()
+    elif op == "append_one_sample":
+        w.append_one_sample(make_periodic=step["periodic"])
+    elif op == "repeat":
+        if m * step["arg"] > limit:
+            return "skipped"
+        w.repeat(step["arg"])
+    elif op == "truncate_by_index":
+        start, stop = int(step["u"] * m), m - int(step["v"] * m)
+        # (after a reshaping step the reference has another length and is cut with the same indices: not asserted)
+        if stop - start < 5 or len(w.get_reference()[0]) != m:
+            return "skipped"
+        w.truncate_by_index(start, stop)
+    elif op == "truncate_by_value":
+        left = step["u"] * (cx[-1] - cx[0]) + cx[0]
+        right = (1.0 - step["v"]) * (cx[-1] - cx[0]) + cx[0]
+        li = max([i for i, v in enumerate(cx) if v <= left], default=0)
+        ri = min([i for i, v in enumerate(cx) if v >= right], default=m - 1)
+        if ri - li + 1 < 5 or not left < right:
+            return "skipped"
+        w.truncate_by_value(step["u"], 1.0 - step["v"], x_left_as_ratio=True, x_right_as_ratio=True)
+    elif op == "shift_y":
+        w.shift_y(step["arg"])
+    elif op == "scale_y":
+        w.scale_y(step["arg"])
+    else:
+        raise KeyError(op)
+    return "done"
+
+
 def apply_step(w, step):
     op = step["op"]
     if op == "trend":
@@ -764,8 +857,11 @@ def apply_step(w, step):
         else:
             cur = [float(v) for v in w.get()[0]]
             w.interpolate(new_x=np.array(prep_grid(cur, how)), method=step["method"])
+    elif op == "smooth":
+        w.smooth(step["arg"])
     else:
-        getattr(w, op)(step["arg"])
+        return apply_domain_step(w, step)
+    return "done"
 
 
 def pair_state(pair):
@@ -783,8 +879,11 @@ def weaver_history_body(ctx, case):
             if step["op"] in ("smooth", "interpolate") and not usable(cur):
                 ctx.count("history-left-the-conditioned-range")
                 return
-            apply_step(w, step)
-            done.append(step["op"])
+            if apply_step(w, step) == "skipped":
+                ctx.count("step skipped (precondition)")
+                continue
+            done.append(step["op"] if step["op"] != "append_one_sample" or not step["periodic"]
+                        else "append_one_sample(periodic)")
     if any(issubclass(r.category, (RuntimeWarning, UserWarning)) for r in log):
         ctx.count("discarded_fitpack")
         return
@@ -838,26 +937,162 @@ def weaver_history_body(ctx, case):
     ctx.record(case, cls, nontrivial=diverged)
 
 
+# ---- histories at process level: the same array objects passed again after in-place edits ---------------------------
+
+@st.composite
+def process_history_case(draw, ctx):
+    case = draw(base(ctx, nonconstant=True, m_lo=5))
+    m = len(case["x"])
+    case.update(xc="array", yc="array", xint=False, x=[float(v) for v in case["x"]])
+    case["y2"] = draw(ys(m, nonconstant=True))["y"]
+    case["x2map"] = draw(st.sampled_from([[1.0, 0.0], [2.0, 1.0], [0.5, -3.0], [1.0, 0.125]]))
+    m0 = draw(st.sampled_from(METHODS))
+    case["method"] = m0
+    steps = []
+    for i in range(draw(st.integers(3, 9))):
+        kind = draw(st.sampled_from(["call", "call", "call", "edit_y", "edit_y", "edit_y", "edit_x", "edit_grid"]))
+        if i == 0:
+            kind = "call"
+        pair = draw(st.sampled_from([0, 0, 0, 1]))
+        if kind == "call":
+            g = draw(st.sampled_from(["x-object", "x-copy", "spec", "spec", "reuse", "reuse", "beyond"]))
+            step = dict(op="call", pair=pair, grid=g, method=m0 if draw(st.integers(0, 3)) else draw(st.sampled_from(METHODS)))
+            if g in ("spec", "beyond"):
+                step["spec"] = [list(v) for v in draw(st.lists(st.tuples(fl(0.0, 1.0), st.one_of(st.just(0.0), fl(0.0, 1.0))),
+                                                              min_size=0, max_size=20))]
+        elif kind == "edit_y":
+            how = draw(st.one_of(st.tuples(st.just("elem"), fl(0.0, 1.0), st.one_of(st.just(4.5), fl(-100.0, 100.0))),
+                                 st.tuples(st.just("affine"), st.sampled_from([2.0, -1.0, 0.5, 3.0, 0.0]),
+                                           st.one_of(st.just(1.0), fl(-50.0, 50.0))),
+                                 st.tuples(st.just("scale"), st.sampled_from([2.0, -1.0, 0.5]), fl(-10.0, 10.0)),
+                                 st.tuples(st.just("reverse")),
+                                 st.tuples(st.just("sin"), fl(0.1, 10.0), fl(0.1, 2.0))))
+            step = dict(op="edit_y", pair=pair, how=list(how))
+        elif kind == "edit_x":
+            how = draw(st.one_of(st.tuples(st.just("affine"), st.sampled_from([2.0, 0.5, 1.0, 4.0]),
+                                           st.one_of(st.integers(-64, 64).map(lambda k: k / 8.0), st.just(0.0))),
+                                 st.tuples(st.just("move"), fl(0.0, 1.0), fl(0.3, 0.7))))
+            step = dict(op="edit_x", pair=pair, how=list(how))
+        else:
+            step = dict(op="edit_grid", t=draw(fl(0.05, 0.45)))
+        steps.append(step)
+    steps.append(dict(op="call", pair=0, grid=draw(st.sampled_from(["x-object", "reuse", "spec"])), method=m0,
+                      spec=[[0.5, 0.5], [0.25, 0.0]]))
+    case["steps"] = steps
+    return case
+
+
+def process_history_body(ctx, case):
+    x0 = np.array(case["x"], dtype=float)
+    a, b = case["x2map"]
+    pairs = [[x0, np.array(case["y"], dtype=float)], [a * x0 + b, np.array(case["y2"], dtype=float)]]
+    affine = [None, None]           # (p, c) while y of the pair is exactly p*x + c of its current x
+    last_grid = None
+    ncalls = 0
+    cls = common_classes(case)
+    edits_since_call = [set(), set()]
+    for step in case["steps"]:
+        op = step["op"]
+        if op == "edit_grid":
+            if last_grid is not None and len(last_grid) > 0:
+                x, _ = pairs[0]
+                last_grid += step["t"] * float(np.min(np.diff(x)))        # in place, order preserved
+                cls.add("edit:grid-in-place")
+            continue
+        x, y = pairs[step["pair"]]
+        m = len(x)
+        if op == "edit_y":
+            how = step["how"]
+            if how[0] == "elem":
+                y[min(int(how[1] * m), m - 1)] = how[2]
+            elif how[0] == "affine":
+                y[:] = how[1] * x + how[2]
+            elif how[0] == "scale":
+                y[:] = how[1] * y + how[2]
+            elif how[0] == "reverse":
+                y[:] = y[::-1].copy()
+            else:
+                y[:] = how[1] * np.sin(how[2] * np.arange(m))
+            affine[step["pair"]] = (how[1], how[2]) if how[0] == "affine" else None
+            edits_since_call[step["pair"]].add("y:" + how[0])
+            continue
+        if op == "edit_x":
+            how = step["how"]
+            if how[0] == "affine":
+                x[:] = how[1] * x + how[2]
+            else:
+                i = 1 + min(int(how[1] * (m - 2)), m - 3)
+                x[i] = x[i - 1] + how[2] * (x[i + 1] - x[i - 1])
+            affine[step["pair"]] = None
+            edits_since_call[step["pair"]].add("x:" + how[0])
+            continue
+        # ---- a call: judged against the CURRENT contents of the very objects that are passed
+        cx, cy = [float(v) for v in x], [float(v) for v in y]
+        if not usable(cx):
+            ctx.count("history-left-the-conditioned-range")
+            return
+        g = step["grid"]
+        if g == "x-object":
+            grid_obj = x
+        elif g == "reuse" and last_grid is not None:
+            grid_obj = last_grid
+        elif g in ("spec", "beyond"):
+            pts = grid_from_spec(cx, step["spec"])
+            if g == "beyond":
+                span = cx[-1] - cx[0]
+                pts = [cx[0] - 0.5 * span, cx[0] - 0.01 * span] + pts + [cx[-1] + 0.01 * span, cx[-1] + span]
+            grid_obj = np.array(pts, dtype=float)
+        else:
+            grid_obj = x.copy()
+        grid = [float(v) for v in grid_obj]
+        method = step["method"]
+        where = f"call {ncalls + 1} ({method!r}, pair {step['pair']}, grid {g}" + \
+                (f", after in-place edits {sorted(edits_since_call[step['pair']])}" if edits_since_call[step["pair"]]
+                 else "") + "): "
+        res = check_array(process.interpolate(x, y, grid_obj, method=method), len(grid), where + "interpolate")
+        aff = affine[step["pair"]] if method != "constant" else None
+        check_values(method, cx, cy, grid, res, affine=aff, where=where)
+        if edits_since_call[step["pair"]] and ncalls:
+            cls |= {"call-after-edit:" + e for e in edits_since_call[step["pair"]]}
+            cls.add("same objects passed again after an in-place edit")
+        if aff is not None:
+            cls.add("affine-overwrite judged")
+        cls.add("method:" + method)
+        cls.add("grid:" + (g if not (g == "reuse" and last_grid is None) else "x-copy"))
+        if step["pair"] == 1:
+            cls.add("second pair of equal shape")
+        edits_since_call[step["pair"]] = set()
+        if grid_obj is not x:
+            last_grid = grid_obj
+        ncalls += 1
+    cls.add(f"calls:{min(ncalls, 4)}{'+' if ncalls >= 4 else ''}")
+    ctx.record(case, cls, nontrivial="same objects passed again after an in-place edit" in cls)
+
+
 SUBCHECKS = [
-    Sub("at_samples", "hyp", at_samples_body, quick=400, thorough=8000,
+    Sub("at_samples", "hyp", at_samples_body, quick=300, thorough=6000,
         strategy=lambda ctx: grid_case(ctx, profiles=["same", "same", "superset", "subset", "same-int", "same-int"]),
         clause="every method returns the sample values at the original abscissae (linear/constant exactly, "
                "cubic/spline to 1e-9)"),
-    Sub("constant", "hyp", single_method_body, quick=400, thorough=8000,
+    Sub("constant", "hyp", single_method_body, quick=300, thorough=6000,
         strategy=lambda ctx: grid_case(ctx, method="constant", nonconstant=True),
         clause="'constant': value of the last sample at or before each new point, first value left of the data"),
-    Sub("linear", "hyp", single_method_body, quick=400, thorough=8000,
+    Sub("linear", "hyp", single_method_body, quick=300, thorough=6000,
         strategy=lambda ctx: grid_case(ctx, method="linear", nonconstant=True),
         clause="'linear': straight-line value between the two neighbouring samples, exact on the samples"),
-    Sub("affine", "hyp", affine_body, quick=400, thorough=8000,
+    Sub("affine", "hyp", affine_body, quick=300, thorough=6000,
         strategy=lambda ctx: grid_case(ctx, affine=True),
         clause="linear, cubic and spline reproduce affine data inside the range"),
-    Sub("weaver_n", "hyp", weaver_n_body, strategy=weaver_n_case, quick=400, thorough=8000,
+    Sub("weaver_n", "hyp", weaver_n_body, strategy=weaver_n_case, quick=300, thorough=6000,
         clause="Weaver.interpolate(n): exactly n equally spaced points spanning the same range, values per method"),
-    Sub("weaver_history", "hyp", weaver_history_body, strategy=weaver_history_case, quick=300, thorough=4000,
+    Sub("process_history", "hyp", process_history_body, strategy=process_history_case, quick=200, thorough=4000,
+        clause="process.interpolate called repeatedly with the SAME x / y / grid array objects, edited in place in "
+               "between (one element, whole array, affine overwrite, x moved keeping it increasing) and alternating "
+               "with a second pair of equal shape: every call obeys all oracles for the current contents"),
+    Sub("weaver_history", "hyp", weaver_history_body, strategy=weaver_history_case, quick=200, thorough=4000,
         clause="after 1..4 preparatory steps on one Weaver, interpolate (n or new_x, every method) acts on the CURRENT "
                "working series: all oracles above applied to copies of get(); reference and original untouched"),
-    Sub("weaver_grid", "hyp", weaver_grid_body, strategy=weaver_grid_case, quick=400, thorough=8000,
+    Sub("weaver_grid", "hyp", weaver_grid_body, strategy=weaver_grid_case, quick=300, thorough=6000,
         clause="Weaver.interpolate(new_x): grid adopted when both end points agree, otherwise (and for an unknown "
                "method) ValueError with the Weaver unchanged"),
 ]
